@@ -299,8 +299,8 @@ CHECKS["C08"] = dict(
          "because the repaired loop reaches groups the defective reconstruction cannot rebuild).  Each run therefore checks that the implementation's "
          "balance loop is EXACTLY the faithful pinned model of the code as found (groups in order with their nodes, masses, ratio, exception class, "
          "non-return matched against the pinned model running out of 1500 iterations) and accepts a failure of the specified observables (partition of "
-         "the language, conditional probabilities, programs(), ratio = heaviest/lightest) only as one of the recorded findings; 25 corpus cases that the "
-         "unchanged tree rebuilds correctly must stay correct.  __pcfg_from__ is not modelled: its classifier is symptom-based, so the check has little "
+         "the language, conditional probabilities, programs(), ratio = heaviest/lightest) only as one of the recorded findings; regression corpus: ~170 cases (25 from generated runs, the rest with desired ratio 1000 so that the balance loop is not entered; tools/c08_okcorpus.py) that the "
+         "unchanged tree rebuilds correctly under hash seeds 0-3 must stay correct.  __pcfg_from__ is not modelled: its classifier is symptom-based, so the check has little "
          "power against new defects inside it; termination of the repaired balance loop is not proved."),
    note=TB + "Exact dyadic weights only (uniform()/random() float weights are not exercised: a rounding could change the chosen swap); tolerance 1e-9 on fragment probabilities and on the ratio; split() is given 3 s, pinned-model fuel 1500; groups are observed by wrapping __split_into_nodes__; grammars of at most 160 programs.",
    design="5/C08")
